@@ -300,11 +300,14 @@ def write_evidence(prop, args, seed, t0, H, stats, thms, discharged, violations)
             'trusted_base': list(getattr(H, 'TRUSTED', [])) + [
                 'Lean 4.33.0 kernel; Mathlib v4.33.0 as compiled in /opt/veriftools/mathlib4',
                 'axioms allowed: propext, Classical.choice, Quot.sound (audited per theorem on this run)',
-                'tools/py2lean.py subset semantics (translator) and tools/harness correspondence generators'],
+                'tools/py2lean.py subset semantics (translator) and tools/harness correspondence generators',
+                'IEEE-754 double arithmetic of NumPy and of Lean `Float` in the driver: rounding is not modelled; model and implementation are compared within stated tolerances, the theorems are about exact reals/rationals/integers'],
             'theorems': stats.get('theorems', []),
             'unproven_clauses': list(getattr(H, 'UNPROVEN', [])),
             'translated_sources': stats.get('gen', {}),
             'translator_selfcheck_evaluations': stats.get('translator_selfcheck_evaluations', 0),
+            'translator_selfcheck_note': 'counts only functions translated whole by py2lean with integer arguments (evaluated in Lean and in Python on the same integers); '
+                                         'fragments emitted by spec generators (tools/specs) are consumed by the model and exercised by the correspondence cases instead',
             'pinned_functions': stats.get('pinned_functions', 0),
             'evaluations': stats.get('evaluations', 0),
             'distinct_nontrivial': stats.get('distinct_nontrivial', 0),
